@@ -54,6 +54,7 @@ type Frame struct {
 	cur      *ssa.BasicBlock
 	bindings []Value
 	params   []Value
+	sparseIdx map[ssa.Value]int // index register -> physical cell (range driver over sparse slices)
 }
 
 type Loop struct {
@@ -99,6 +100,7 @@ type Exec struct {
 	notes       []string
 	permute     bool
 	entryHooks  map[*ssa.Function]func(fr *Frame)
+	physIndex   map[*Object]bool // arrays currently indexed physically (sort models)
 	scenarioMeta map[string]interface{}
 }
 
@@ -111,7 +113,7 @@ type NondetVar struct {
 func NewExec(prog *ssa.Program, pkg *ssa.Package, cfg Config) *Exec {
 	return &Exec{prog: prog, pkg: pkg, globals: map[*ssa.Global]*Object{}, panicked: False, cfg: cfg,
 		loops: map[*ssa.Function]*loopInfo{}, encoded: map[string]int{}, modelsHit: map[string]int{},
-		reachLabels: map[string]*Term{}, scenarioMeta: map[string]interface{}{}}
+		reachLabels: map[string]*Term{}, scenarioMeta: map[string]interface{}{}, physIndex: map[*Object]bool{}}
 }
 
 func (ex *Exec) newObject(name string, t types.Type, v Value) *Object {
@@ -294,7 +296,100 @@ func edgesGuard(es []Edge) *Term {
 	return Or(gs...)
 }
 
+// sparseRange recognises go/ssa's range-over-slice loop
+//   header: phis...; i' = i + 1; ok = i' < len; if ok goto body else done
+//   body:   &x[i'] ...
+// over a sparse slice and drives it cell by cell: iteration k runs the body for physical cell
+// k under its presence guard and routes absent cells straight to the next iteration (the same
+// scheme as map iteration), so every element keeps its identity instead of being merged by
+// logical position.
+func (ex *Exec) sparseRange(fr *Frame, L *Loop) bool {
+	h := L.header
+	if h.Comment != "rangeindex.loop" || len(h.Succs) != 2 {
+		return false
+	}
+	n := len(h.Instrs)
+	if n < 4 {
+		return false
+	}
+	iff, ok1 := h.Instrs[n-1].(*ssa.If)
+	cmp, ok2 := h.Instrs[n-2].(*ssa.BinOp)
+	inc, ok3 := h.Instrs[n-3].(*ssa.BinOp)
+	if !ok1 || !ok2 || !ok3 || iff.Cond != cmp || cmp.X != inc {
+		return false
+	}
+	for _, ins := range h.Instrs[:n-3] {
+		if _, isPhi := ins.(*ssa.Phi); !isPhi {
+			return false
+		}
+	}
+	body, done := h.Succs[0], h.Succs[1]
+	var sl ssa.Value
+	for _, ins := range body.Instrs {
+		if ia, ok := ins.(*ssa.IndexAddr); ok && ia.Index == inc {
+			sl = ia.X
+			break
+		}
+	}
+	if sl == nil {
+		return false
+	}
+	if _, isSlice := sl.Type().Underlying().(*types.Slice); !isSlice {
+		return false
+	}
+	sv, ok := ex.operand(fr, sl).(RefV)
+	if !ok || !isSparse(sv) {
+		return false
+	}
+	phys := 0
+	for _, a := range sv.Alts {
+		if st := a.Tgt.(SliceT); st.phys() > phys {
+			phys = st.phys()
+		}
+	}
+	if fr.sparseIdx == nil {
+		fr.sparseIdx = map[ssa.Value]int{}
+	}
+	rank := BVC(0, 64)
+	for k := 0; k < phys; k++ {
+		edges := fr.incoming[h]
+		delete(fr.incoming, h)
+		g := edgesGuard(edges)
+		if g.IsFalse() {
+			break
+		}
+		fr.guard = g
+		fr.cur = h
+		ex.evalPhis(fr, h, edges)
+		pk := False
+		for _, a := range sv.Alts {
+			pk = Or(pk, And(a.C, a.Tgt.(SliceT).presAt(k)))
+		}
+		fr.regs[inc] = IntV{rank, true}
+		fr.regs[cmp] = BoolV{pk}
+		fr.sparseIdx[inc] = k
+		fr.addEdge(body, And(g, pk), h)
+		fr.addEdge(h, And(g, Not(pk)), nil)
+		rank = BVBin("bvadd", rank, Ite(pk, BVC(1, 64), BVC(0, 64)))
+		ex.execRegion(fr, L)
+	}
+	edges := fr.incoming[h]
+	delete(fr.incoming, h)
+	if g := edgesGuard(edges); !g.IsFalse() {
+		fr.guard = g
+		fr.cur = h
+		ex.evalPhis(fr, h, edges)
+		fr.regs[cmp] = BoolV{False}
+		fr.addEdge(done, g, h)
+	}
+	delete(fr.sparseIdx, inc)
+	return true
+}
+
 func (ex *Exec) execLoop(fr *Frame, L *Loop) {
+	if ex.sparseRange(fr, L) {
+		return
+	}
 	for iter := 0; ; iter++ {
 		g := edgesGuard(fr.incoming[L.header])
 		if g.IsFalse() {
@@ -340,16 +435,8 @@ func (fr *Frame) set(v ssa.Value, val Value) {
 	fr.regs[v] = val
 }
 
-func (ex *Exec) execBlock(fr *Frame, b *ssa.BasicBlock) {
-	edges := fr.incoming[b]
-	delete(fr.incoming, b)
-	g := edgesGuard(edges)
-	if g.IsFalse() {
-		return
-	}
-	fr.guard = g
-	fr.cur = b
-	// phis (simultaneous)
+// evalPhis evaluates the phi nodes of b simultaneously for the given incoming edges.
+func (ex *Exec) evalPhis(fr *Frame, b *ssa.BasicBlock, edges []Edge) int {
 	var phiVals []Value
 	var phis []*ssa.Phi
 	for _, ins := range b.Instrs {
@@ -386,6 +473,20 @@ func (ex *Exec) execBlock(fr *Frame, b *ssa.BasicBlock) {
 	for i, phi := range phis {
 		fr.set(phi, phiVals[i])
 	}
+	return len(phis)
+}
+
+func (ex *Exec) execBlock(fr *Frame, b *ssa.BasicBlock) {
+	edges := fr.incoming[b]
+	delete(fr.incoming, b)
+	g := edgesGuard(edges)
+	if g.IsFalse() {
+		return
+	}
+	fr.guard = g
+	fr.cur = b
+	nphi := ex.evalPhis(fr, b, edges)
+	phis := b.Instrs[:nphi]
 	for _, ins := range b.Instrs[len(phis):] {
 		t0 := len(TS.all)
 		ex.step(fr, ins)
@@ -862,42 +963,6 @@ func (ex *Exec) mapLen(m RefV) *Term {
 	return n
 }
 
-// ---- slices ----
-
-func (ex *Exec) sliceLen(s RefV) *Term {
-	n := BVC(0, 64)
-	for _, a := range s.Alts {
-		switch t := a.Tgt.(type) {
-		case SliceT:
-			n = Ite(a.C, t.Len, n)
-		case BoxT:
-			// length of marshalled JSON: opaque positive
-			n = Ite(a.C, BVC(2, 64), n)
-		default:
-			panic(unsupported("len of %T", a.Tgt))
-		}
-	}
-	return n
-}
-
-func sliceMaxLen(s RefV) int {
-	m := 0
-	for _, a := range s.Alts {
-		if t, ok := a.Tgt.(SliceT); ok {
-			k := t.Cap
-			if t.Len.IsConst() {
-				k = int(t.Len.SVal())
-			} else if ub, ok := termUpper(t.Len); ok && ub < k {
-				k = ub
-			}
-			if k > m {
-				m = k
-			}
-		}
-	}
-	return m
-}
-
 // termUpper: syntactic upper bound of a BV term built from ite/const/+const (memoised).
 var upperMemo = map[*Term][2]int{}
 
@@ -937,122 +1002,3 @@ func termUpper1(t *Term) (int, bool) {
 	return 0, false
 }
 
-// sliceElem returns element i (concrete) of slice value s (merged over alternatives).
-func (ex *Exec) sliceElem(s RefV, i int, et types.Type) Value {
-	acc := ZeroValue(et)
-	for _, a := range s.Alts {
-		t := a.Tgt.(SliceT)
-		if i >= t.Cap {
-			continue
-		}
-		v := t.Arr.val.(ArrayV).E[t.Off+i]
-		acc = MergeV(a.C, v, acc)
-	}
-	return acc
-}
-
-func (ex *Exec) newArray(name string, et types.Type, n int) *Object {
-	av := ArrayV{E: make([]Value, n)}
-	z := ZeroValue(et)
-	for i := range av.E {
-		av.E[i] = z
-	}
-	return ex.newObject(name, types.NewArray(et, int64(n)), av)
-}
-
-// appendSlice implements append(s, t...) for slice values.
-func (ex *Exec) appendSlice(fr *Frame, s RefV, t RefV, et types.Type) RefV {
-	tMax := sliceMaxLen(t)
-	tLen := ex.sliceLen(t)
-	if tMax == 0 {
-		return s
-	}
-	var out []Alt
-	// in-place alternatives and one shared fresh array for the reallocation case
-	nilC := s.IsNilTerm()
-	type src struct {
-		c   *Term
-		st  *SliceT
-		max int
-	}
-	var reall []src
-	if !nilC.IsFalse() {
-		reall = append(reall, src{c: nilC})
-	}
-	for _, a := range s.Alts {
-		st := a.Tgt.(SliceT)
-		max := st.Cap
-		if ub, ok := termUpper(st.Len); ok && ub < max {
-			max = ub
-		}
-		fits := BVCmp("bvsle", BVBin("bvadd", st.Len, tLen), BVC(int64(st.Cap), 64))
-		inC := And(a.C, fits)
-		if !inC.IsFalse() {
-			// write elements in place
-			arr := st.Arr.val.(ArrayV)
-			ne := make([]Value, len(arr.E))
-			copy(ne, arr.E)
-			for j := 0; j < tMax; j++ {
-				ev := ex.sliceElem(t, j, et)
-				jin := BVCmp("bvslt", BVC(int64(j), 64), tLen)
-				for pos := 0; pos+j < st.Cap && pos <= max; pos++ {
-					c := And(fr.guard, inC, jin, Eq(st.Len, BVC(int64(pos), 64)))
-					if c.IsFalse() {
-						continue
-					}
-					ne[st.Off+pos+j] = MergeV(c, ev, ne[st.Off+pos+j])
-				}
-			}
-			st.Arr.val = ArrayV{E: ne}
-			ns := st
-			ns.Len = BVBin("bvadd", st.Len, tLen)
-			out = addAlt(out, inC, ns)
-		}
-		reC := And(a.C, Not(fits))
-		if !reC.IsFalse() {
-			stc := st
-			reall = append(reall, src{c: reC, st: &stc, max: max})
-		}
-	}
-	if len(reall) > 0 {
-		maxOld := 0
-		for _, r := range reall {
-			if r.max > maxOld {
-				maxOld = r.max
-			}
-		}
-		capNew := maxOld + tMax
-		if capNew < ex.cfg.SliceCap {
-			capNew = ex.cfg.SliceCap
-		}
-		arr := ex.newArray("append", et, capNew)
-		ne := arr.val.(ArrayV).E
-		oldLen := BVC(0, 64)
-		anyC := False
-		for _, r := range reall {
-			anyC = Or(anyC, r.c)
-			if r.st == nil {
-				continue
-			}
-			oldLen = Ite(r.c, r.st.Len, oldLen)
-			src := r.st.Arr.val.(ArrayV).E
-			for i := 0; i < r.max; i++ {
-				ne[i] = MergeV(r.c, src[r.st.Off+i], ne[i])
-			}
-		}
-		for j := 0; j < tMax; j++ {
-			ev := ex.sliceElem(t, j, et)
-			jin := BVCmp("bvslt", BVC(int64(j), 64), tLen)
-			for pos := 0; pos <= maxOld; pos++ {
-				c := And(jin, Eq(oldLen, BVC(int64(pos), 64)))
-				if c.IsFalse() {
-					continue
-				}
-				ne[pos+j] = MergeV(c, ev, ne[pos+j])
-			}
-		}
-		arr.val = ArrayV{E: ne}
-		out = addAlt(out, anyC, SliceT{Arr: arr, Off: 0, Len: BVBin("bvadd", oldLen, tLen), Cap: capNew})
-	}
-	return RefV{Alts: out}
-}
